@@ -186,16 +186,20 @@ fn derive_include_shape(
     IncludeDef {
         pos,
         path: _path,
-        typ: _typ,
+        typ,
     }: &IncludeDef,
 ) -> Shape {
-    Shape::Narrowed(NarrowedShape::new_with_pos(
-        vec![
-            Shape::Tuple(PositionedItem::new(vec![], pos.clone())),
-            Shape::List(NarrowedShape::new_with_pos(vec![], pos.clone())),
-        ],
-        pos.clone(),
-    ))
+    match typ.fragment.as_ref() {
+        // These include types always produce a string.
+        "str" | "b64" | "b64urlsafe" => Shape::Str(pos.clone()),
+        _ => Shape::Narrowed(NarrowedShape::new_with_pos(
+            vec![
+                Shape::Tuple(PositionedItem::new(vec![], pos.clone())),
+                Shape::List(NarrowedShape::new_with_pos(vec![], pos.clone())),
+            ],
+            pos.clone(),
+        )),
+    }
 }
 
 fn derive_not_shape(def: &NotDef, symbol_table: &mut BTreeMap<Rc<str>, Shape>) -> Shape {
